@@ -313,6 +313,40 @@ def h_error_after_graceful_close(client):
     return h
 
 
+def h_closed_pushed_stream_memory():
+    """client side of the same question: a pushed stream that closed (ended / reset by us /
+    reset by the peer) and was purged - whether or not it carries the highest promised id -
+    answers a later HEADERS with the class its closing reason prescribes"""
+    def h():
+        how = F.sym_choice('stream2', ['recv_es', 'send_rst', 'recv_rst'])
+        later_push = F.sym_choice('stream4_promised_later', [False, True])
+        with h2h.native():
+            ctx = ops.Ctx(True)
+            steps = [('send_headers', 1, 'req', False), ('PP', 1, 2)]
+            steps += {'recv_es': [('HEADERS', 2, 'resp', True)],
+                      'send_rst': [('reset', 2)],
+                      'recv_rst': [('RST', 2)]}[how]
+            if later_push:
+                steps.append(('PP', 1, 4))
+            steps.append(('open_counts',))
+            for o in steps:
+                r = ops.run_op(ctx, o)
+                if r.cls[0] not in ('ok', 'accept'):
+                    raise h2h.HarnessError('shape: %r -> %r' % (o, r.cls))
+            ctx.me.data_to_send()
+            pre = ctx.obs.clone()
+        op = ('HEADERS', 2, 'resp', True)
+        out = ops.run_op(ctx, op, symbolic=True)
+        note(out.cls[0])
+        allowed = c06.expect(pre, op)
+        got = c06.norm(out.cls)
+        check(got in allowed, 'closed-stream-memory:pushed:%s:%s' % (
+            how, '.'.join(str(x) for x in got)), sorted(allowed, key=repr))
+        if out.exc is not None:
+            goaway_rule(pre, out, ctx, 'closed-stream-memory')
+    return h
+
+
 def h_goaway_after_refused_push():
     """pushes the client refused (their parent was reset) with lower, equal or higher promised
     ids than the ones seen before, then a connection error: the GOAWAY still names the highest
@@ -394,6 +428,7 @@ def shards(tier, seed):
     out = F.standard_shards(tier, seed, judge, alpha_filter=lambda o: o[0].isupper(),
                             closure=False)
     out.append(Shard('closed_stream_memory/server', h_closed_stream_memory()))
+    out.append(Shard('closed_stream_memory/client-pushed', h_closed_pushed_stream_memory()))
     out.append(Shard('goaway_after_refused_push/client', h_goaway_after_refused_push(),
                      expect=['conn_error']))
     for client in (True, False):
